@@ -80,7 +80,19 @@ CastleK(x) == CastleKW(x) \cup { Mirror(p) : p \in CastleKW(x) }
 DPushW(f) ==
   { Mk(Put(Put(Put(Put(EmptyBoard, 60, "k"), wk, "K"), SqOf(1, f), "P"), x, "p"), White, {}, 8) :
       <<x, wk>> \in { t \in ((24..39) \ {SqOf(3, f)}) \X {2, 6} : SqOf(2, f) # t[1] } }
-DPush(f) == IF f > 7 THEN {} ELSE DPushW(f) \cup { Mirror(p) : p \in DPushW(f) }
+\* an en-passant square whose file also holds a pawn of the side to move on its own fourth rank
+\* (the exported en-passant rank must come from the side to move, not from what stands on the file)
+EpFileW(f) ==
+  { Mk(Put(Put(Put(Put(Put(EmptyBoard, 60, "k"), 2, "K"), SqOf(4, f), "p"), SqOf(4, f + d), "P"), SqOf(3, f), "P"), White, {}, f) :
+      d \in { x \in {-1, 1} : f + x \in 0..7 } }
+\* a promotion that answers an en-passant-enabling double step: Black to move, its pawn on the seventh rank of file f
+\* with a white pawn beside the landing square, and a white pawn ready to promote (with and without capture)
+EpPromoW(f) ==
+  { Mk(Put(Put(Put(Put(Put(Put(EmptyBoard, 4, "K"), 63, "k"), SqOf(6, f), "p"), SqOf(4, f + d), "P"), SqOf(6, g), "P"), SqOf(7, g + 1), "n"),
+       Black, {}, 8) :
+      <<d, g>> \in { t \in {-1, 1} \X (0..5) : f + t[1] \in 0..7 /\ t[2] # f /\ t[2] # f + t[1] /\ t[2] + 1 # f } }
+DPush(f) == IF f > 7 THEN {}
+            ELSE LET W == DPushW(f) \cup EpFileW(f) \cup EpPromoW(f) IN W \cup { Mirror(p) : p \in W }
 
 \* a queen or rook on the ENEMY king's home square that can move to the c- or g-file of that rank while the
 \* mover's own king is at home: its move text looks like the opponent's castling text
